@@ -21,6 +21,9 @@ func attachMonitors(w *World) {
 	if w.want["C11"] {
 		monC11(w)
 	}
+	if w.want["C10"] {
+		w.probe("c10-armed")
+	}
 	monReach(w)
 }
 
